@@ -13,11 +13,15 @@ pub struct Gen {
 }
 
 pub fn gen_strategy(max_len: u32) -> impl Strategy<Value = Gen> {
+    // lengths around multiples of the stream capacities (1024 f32 / 4096 u8 per page): the last
+    // commit of a source is then 1-2 samples long, or a buffer is filled exactly
+    let near = (1u32..=(max_len / 1024).clamp(1, 24), 0u32..5).prop_map(|(k, d)| (k * 1024 + d).saturating_sub(2));
     let len = prop_oneof![
         1 => 0u32..4,
         2 => 0u32..200,
         3 => 0u32..(max_len / 4).max(2),
         3 => 0u32..max_len.max(2),
+        2 => near,
     ];
     (0u8..8, len, any::<u32>()).prop_map(|(pat, len, seed)| Gen { pat, len, seed })
 }
